@@ -273,31 +273,18 @@ Section Proofs.
 
   (* ---- the dispatch table ----------------------------------------------------------- *)
 
-  (* every dunder has a row; every row is the written operand order, with the one exception
-     of __rmul__, which reuses __mul__ (operands NOT swapped) *)
+  (* every dunder has a row; every row passes a function that is the written operand order *)
   Lemma dispatch_table_sound d :
     match lookup_route dispatch_table d with
-    | Some (ViaElementwise g) =>
-        d = Refl Mul \/ forall x y, apply_opfunc scal g x y = written scal d x y
+    | Some (ViaElementwise g) => forall x y, apply_opfunc scal g x y = written scal d x y
     | Some OwnRadd => d = Refl Add
     | None => False
     end.
-  Proof. destruct d as [[]|[]]; simpl; try (right; intros; reflexivity); try reflexivity. left; reflexivity. Qed.
-
-  Lemma lift2_ext (f g : val -> val -> sres val) x y :
-    (forall a b, f a b = g a b) -> lift2 f x y = lift2 g x y.
-  Proof. intros H. destruct x, y; simpl; try reflexivity. rewrite H. reflexivity. Qed.
-
-  (* the function each dunder applies at a position *)
-  Definition effective (d : dunder) : val -> val -> sres val :=
-    match d with
-    | Refl Mul => fun x y => scal Mul x y
-    | _ => written scal d
-    end.
+  Proof. destruct d as [[]|[]]; simpl; try (intros; reflexivity); reflexivity. Qed.
 
   Lemma vec_dunder_ok d xs other l :
     vec_dunder scal d xs other = Ok l ->
-    operand_fits (length xs) other /\ fn_result (effective d) xs other l.
+    operand_fits (length xs) other /\ fn_result (written scal d) xs other l.
   Proof.
     destruct d as [[]|[]]; unfold vec_dunder; simpl lookup_route; cbv beta iota;
       try (intros H; apply elementwise_operation_ok in H; exact H).
@@ -307,7 +294,7 @@ Section Proofs.
   Lemma vec_dunder_total d xs other :
     operand_fits (length xs) other ->
     (forall i, i < length xs -> exists r,
-        lift2 (effective d) (nth i xs None) (operand_nth other i) = SOk r) ->
+        lift2 (written scal d) (nth i xs None) (operand_nth other i) = SOk r) ->
     exists l, vec_dunder scal d xs other = Ok l.
   Proof.
     destruct d as [[]|[]]; unfold vec_dunder; simpl lookup_route; cbv beta iota; intros Hfit H;
@@ -323,28 +310,21 @@ Section Proofs.
     apply radd_body_mismatch; exact H.
   Qed.
 
-  Lemma effective_written d : d <> Refl Mul -> effective d = written scal d.
-  Proof. destruct d as [[]|[]]; intros H; try reflexivity. congruence. Qed.
-
   (* ---- the theorems of Props/C05.v -------------------------------------------------- *)
 
   Lemma binop_length d xs other l : vec_dunder scal d xs other = Ok l -> length l = length xs.
   Proof. intros H. apply vec_dunder_ok in H. apply H. Qed.
 
   Lemma binop_nth d xs other l :
-    d <> Refl Mul -> vec_dunder scal d xs other = Ok l -> elementwise_result scal d xs other l.
-  Proof.
-    intros Hd H. apply vec_dunder_ok in H. destruct H as [_ [L N]].
-    rewrite (effective_written d Hd) in N. split; [exact L|exact N].
-  Qed.
+    vec_dunder scal d xs other = Ok l -> elementwise_result scal d xs other l.
+  Proof. intros H. apply vec_dunder_ok in H. destruct H as [_ [L N]]. split; [exact L|exact N]. Qed.
 
   Lemma binop_total d xs other :
-    d <> Refl Mul -> operand_fits (length xs) other -> defined_everywhere scal d xs other ->
+    operand_fits (length xs) other -> defined_everywhere scal d xs other ->
     exists l, vec_dunder scal d xs other = Ok l /\ elementwise_result scal d xs other l.
   Proof.
-    intros Hd Hfit Hdef. destruct (vec_dunder_total d xs other Hfit) as [l Hl].
-    - rewrite (effective_written d Hd). exact Hdef.
-    - exists l. split; [exact Hl|]. apply binop_nth; assumption.
+    intros Hfit Hdef. destruct (vec_dunder_total d xs other Hfit Hdef) as [l Hl].
+    exists l. split; [exact Hl|]. apply binop_nth; assumption.
   Qed.
 
   Lemma binop_len_mismatch_is_error d xs other :
@@ -353,7 +333,7 @@ Section Proofs.
 
   (* reflected forms: the scalar / the sequence element stands on the LEFT *)
   Lemma rbinop_operand_order_scalar o xs s l :
-    o <> Mul -> vec_dunder scal (Refl o) xs (OScalar s) = Ok l ->
+    vec_dunder scal (Refl o) xs (OScalar s) = Ok l ->
     length l = length xs /\
     forall i, i < length xs ->
       match nth i xs None with
@@ -361,36 +341,25 @@ Section Proofs.
       | None => SOk None
       end = SOk (nth i l None).
   Proof.
-    intros Ho H. apply binop_nth in H; [|congruence]. destruct H as [L N]. split; [exact L|].
+    intros H. apply binop_nth in H. destruct H as [L N]. split; [exact L|].
     intros i Hi. specialize (N i Hi). unfold at_position, lift2 in N. simpl in N.
     destruct (nth i xs None); exact N.
   Qed.
 
   Lemma rbinop_operand_order_seq o xs ys l :
-    o <> Mul -> vec_dunder scal (Refl o) xs (OSeq ys) = Ok l ->
+    vec_dunder scal (Refl o) xs (OSeq ys) = Ok l ->
     length l = length xs /\
     forall i, i < length xs -> lift2 (scal o) (nth i ys None) (nth i xs None) = SOk (nth i l None).
   Proof.
-    intros Ho H. apply binop_nth in H; [|congruence]. destruct H as [L N]. split; [exact L|].
+    intros H. apply binop_nth in H. destruct H as [L N]. split; [exact L|].
     intros i Hi. specialize (N i Hi). unfold at_position in N. simpl in N.
     rewrite <- lift2_flip. exact N.
   Qed.
 
-  (* __rmul__ = __mul__: the written order only when Python's * commutes on the operands *)
-  Lemma rmul_commutative xs other l :
-    (forall a b, scal Mul a b = scal Mul b a) ->
-    vec_dunder scal (Refl Mul) xs other = Ok l -> elementwise_result scal (Refl Mul) xs other l.
-  Proof.
-    intros Hc H. apply vec_dunder_ok in H. destruct H as [_ [L N]]. split; [exact L|].
-    intros i Hi. specialize (N i Hi). unfold at_position. rewrite <- N.
-    apply lift2_ext. intros a b. simpl. apply Hc.
-  Qed.
-
-  Lemma rmul_computes_swapped xs other l :
-    vec_dunder scal (Refl Mul) xs other = Ok l ->
-    length l = length xs /\
-    forall i, i < length xs -> lift2 (scal Mul) (nth i xs None) (operand_nth other i) = SOk (nth i l None).
-  Proof. intros H. apply vec_dunder_ok in H. destruct H as [_ H]. exact H. Qed.
+  Lemma rmul_written_order xs s l :
+    vec_dunder scal (Refl Mul) xs (OScalar s) = Ok l ->
+    elementwise_result scal (Refl Mul) xs (OScalar s) l.
+  Proof. apply binop_nth. Qed.
 
   (* ---- unary operators, methods, properties ----------------------------------------- *)
 
@@ -568,19 +537,8 @@ Section Proofs.
   Qed.
 End Proofs.
 
-(* ---- __rmul__ in the written order: refuted on the faithful model -------------------- *)
-
-(* a two-valued world in which * is "take the left operand": not commutative *)
+(* a non-commutative world: the written order is visible (used by the examples of Props/C05.v) *)
 Definition left_biased (o : bop) (a b : bool) : sres bool := SOk a.
-
-Lemma rmul_written_order_refuted :
-  exists (scal : bop -> bool -> bool -> sres bool) xs s l,
-    vec_dunder scal (Refl Mul) xs (OScalar s) = Ok l /\
-    ~ elementwise_result scal (Refl Mul) xs (OScalar s) l.
-Proof.
-  exists left_biased, [Some true], false, [Some true]. split; [reflexivity|].
-  intros [_ N]. specialize (N 0 (Nat.lt_0_succ 0)). vm_compute in N. discriminate.
-Qed.
 
 (* ---- _Date.__add__ --------------------------------------------------------------------- *)
 
